@@ -47,6 +47,12 @@ CLAIMED = {
 }
 
 def main():
+    cdir = os.path.join(ROOT, 'tools', 'claims')
+    if os.path.isdir(cdir):
+        for f in sorted(os.listdir(cdir)):
+            if f.endswith('.json'):
+                c = json.load(open(os.path.join(cdir, f)))
+                CLAIMED[f[:-5]] = (c['technique'], c['text'], COMMON_NOTE + c['modelled_not_verified'], c.get('design_ref', 'DESIGN.md section 4 ' + f[:-5]))
     checks = []
     for pid in IDS:
         if pid not in CLAIMED:
